@@ -39,6 +39,7 @@ const prelude = `
 (assert (forall ((s Str) (o Int) (l Int)) (! (=> (and (= o 0) (= l (slen s))) (= (mkstr (sarr s) o l) s)) :pattern ((mkstr (sarr s) o l)))))
 (assert (forall ((a Str) (b Str) (o Int) (l Int)) (! (and (=> (and (= o 0) (= l (slen a))) (= (mkstr (sarr (sconcat a b)) o l) a)) (=> (and (= o (slen a)) (= l (slen b))) (= (mkstr (sarr (sconcat a b)) o l) b))) :pattern ((mkstr (sarr (sconcat a b)) o l)))))
 (assert (forall ((a Str) (b Str)) (! (= (slen (sconcat a b)) (+ (slen a) (slen b))) :pattern ((sconcat a b)))))
+(assert (forall ((a Str) (b Str) (c Str)) (! (=> (= (sconcat a b) (sconcat a c)) (= b c)) :pattern ((sconcat a b) (sconcat a c)))))
 (assert (forall ((a Str) (b Str) (j Int)) (! (=> (and (<= 0 j) (< j (+ (slen a) (slen b)))) (= (select (sarr (sconcat a b)) j) (ite (< j (slen a)) (select (sarr a) j) (select (sarr b) (- j (slen a)))))) :pattern ((select (sarr (sconcat a b)) j)))))
 `
 
@@ -453,6 +454,48 @@ type BatchV struct {
 	DB  *Cell
 	D   Term
 	Ops []batchOp
+	// Base: the batch's content at a loop head (arbitrary iteration): touched keys, put-vs-delete,
+	// value put; nil = empty.  The concrete Ops are applied after it.
+	Base *batchBase
+}
+
+type batchBase struct{ T, H, V Term }
+
+// IterV: a database iterator over the keys that had the prefix when it was created.
+type IterV struct {
+	DB0    MapC
+	D      Term
+	Prefix Term
+	Cur    Term
+}
+
+// batchEffect: the net effect of the batch on key k (touched, isPut, value).
+func batchEffect(b BatchV, k Term) (touched, isPut, val Term) {
+	touched, isPut = TFalse, TFalse
+	val = Term{}
+	if b.Base != nil {
+		touched, isPut, val = Select(b.Base.T, k), Select(b.Base.H, k), Select(b.Base.V, k)
+	}
+	for _, op := range b.Ops {
+		hit := Eq(k, op.k)
+		touched = Or(hit, touched)
+		if op.del {
+			isPut = And(Not(hit), isPut)
+		} else {
+			isPut = Or(hit, isPut)
+			if val.S == "" {
+				val = op.v
+			} else {
+				val = Ite(hit, op.v, val)
+			}
+		}
+	}
+	return
+}
+
+func (in *Interp) havocBatch(b BatchV) BatchV {
+	ks := MapSortOf(SStr, SBool)
+	return BatchV{DB: b.DB, D: b.D, Base: &batchBase{T: in.D.fresh("batch_t", ks), H: in.D.fresh("batch_h", ks), V: in.D.fresh("batch_v", MapSortOf(SStr, SStr))}}
 }
 
 type batchOp struct {
@@ -609,6 +652,17 @@ func init() {
 		b := f.in.load(st, p.To, f).(BatchV)
 		e := f.dbWriteErr(b.D, st)
 		before := f.in.load(st, b.DB, f).(MapC)
+		if b.Base != nil {
+			in := f.in
+			has2 := in.D.fresh("dbhas", before.Has.Sort)
+			val2 := in.D.fresh("dbval", before.Val.Sort)
+			card2 := in.D.fresh("dbcard", SInt)
+			k := Term{S: "k!bw", Sort: SStr}
+			st.assume(Forall([]Term{k}, Eq(Select(has2, k), Ite(Select(b.Base.T, k), Select(b.Base.H, k), Select(before.Has, k))), []Term{Select(has2, k)}))
+			st.assume(Forall([]Term{k}, Eq(Select(val2, k), Ite(And(Select(b.Base.T, k), Select(b.Base.H, k)), Select(b.Base.V, k), Select(before.Val, k))), []Term{Select(val2, k)}))
+			st.assume(Le(IntLit(0), card2))
+			st.store[b.DB] = MapC{Has: has2, Val: val2, Card: card2}
+		}
 		for _, op := range b.Ops {
 			f.dbApply(b.DB, op, st)
 		}
@@ -628,6 +682,53 @@ func init() {
 		st.assume(Ite(Eq(b.Len, IntLit(8)), And(Eq(e, in.errNil()), Eq(r, be(arr, b.Off, 8))), And(Not(Eq(e, in.errNil())), Eq(r, IntLit(0)))))
 		st.assume(inRange(r, types.Typ[types.Uint64]))
 		return []Val{Sc{r}, Sc{e}}
+	}
+	newIter := func(withPrefix bool) externFn {
+		return func(f *Frame, call *ast.CallExpr, recv Val, args []Val, st *State) []Val {
+			in := f.in
+			d := dbTermOf(recv, f, call)
+			mc := in.load(st, in.dbCell(d), f).(MapC)
+			prefix := in.strLit("")
+			if withPrefix {
+				prefix = f.strOfSlice(args[0], st)
+			}
+			c := in.newCell("iter", CVar, nil)
+			st.store[c] = IterV{DB0: mc, D: d, Prefix: prefix, Cur: in.D.fresh("itkey", SStr)}
+			in.note("database.Iterator modelled as an enumeration of keys that were present with the prefix when it was created (Next: arbitrary such key or exhaustion; order and completeness of the enumeration are NOT modelled)")
+			return []Val{PtrV{To: c, Nil: TFalse}}
+		}
+	}
+	for _, recvName := range []string{"Iteratee", "Database"} {
+		externs[db+recvName+".NewIteratorWithPrefix"] = newIter(true)
+		externs[db+recvName+".NewIterator"] = newIter(false)
+	}
+	externs[db+"Iterator.Next"] = func(f *Frame, call *ast.CallExpr, recv Val, args []Val, st *State) []Val {
+		in := f.in
+		p := recv.(PtrV)
+		it := in.load(st, p.To, f).(IterV)
+		b := in.D.fresh("itnext", SBool)
+		cur := in.D.fresh("itkey", SStr)
+		st.assume(Implies(b, And(Select(it.DB0.Has, cur), in.hasPrefixUF(cur, it.Prefix))))
+		it.Cur = cur
+		st.store[p.To] = it
+		return []Val{Sc{b}}
+	}
+	externs[db+"Iterator.Key"] = func(f *Frame, call *ast.CallExpr, recv Val, args []Val, st *State) []Val {
+		in := f.in
+		it := in.load(st, recv.(PtrV).To, f).(IterV)
+		return []Val{in.thawFresh(it.Cur, st)}
+	}
+	externs[db+"Iterator.Value"] = func(f *Frame, call *ast.CallExpr, recv Val, args []Val, st *State) []Val {
+		in := f.in
+		it := in.load(st, recv.(PtrV).To, f).(IterV)
+		return []Val{in.thawFresh(Select(it.DB0.Val, it.Cur), st)}
+	}
+	externs[db+"Iterator.Error"] = func(f *Frame, call *ast.CallExpr, recv Val, args []Val, st *State) []Val {
+		it := f.in.load(st, recv.(PtrV).To, f).(IterV)
+		return []Val{Sc{f.dbWriteErr(it.D, st)}}
+	}
+	externs[db+"Iterator.Release"] = func(f *Frame, call *ast.CallExpr, recv Val, args []Val, st *State) []Val {
+		return nil
 	}
 	externs["github.com/ava-labs/avalanchego/utils.Zero"] = func(f *Frame, call *ast.CallExpr, recv Val, args []Val, st *State) []Val {
 		return []Val{f.in.zeroVal(resultType0(f, call), f)}
